@@ -41,6 +41,8 @@ def cpu_list(vdir):
 
 
 def out_of_scope(prop):
+    if os.environ.get("NV_NO_SCOPE"):          # triage runs: see what the excluded CPUs would report
+        return set()
     return set(json.load(open(os.path.join(C.VERIF, "codec_scope.json"))).get(prop, []))
 
 
